@@ -68,6 +68,7 @@ fn parse_args() -> Args {
             "--variant" => a.variant = v,
             "--out" => a.out = v,
             "--scale" => a.scale = v.parse().unwrap_or(1.0),
+            "--par-mult" => mon_par::PAR_MULT.store(v.parse().unwrap_or(1), std::sync::atomic::Ordering::Relaxed),
             _ => {
                 a.rest.push(argv[i].clone());
                 i += 1;
